@@ -7,6 +7,7 @@ import (
 	"go/token"
 	"go/types"
 	"regexp"
+	"sync"
 	"strings"
 
 	"golang.org/x/tools/go/ssa"
@@ -424,7 +425,13 @@ func valueLike(T types.Type, depth int) bool {
 	return false
 }
 
+var timeValueMethods = map[string]bool{"After": true, "Before": true, "Equal": true, "Add": true, "UTC": true, "Sub": true, "IsZero": true, "Compare": true, "Unix": true}
+
 func deterministicLib(f *ssa.Function) bool {
+	if FuncPkgPath(f) == "time" && f.Signature.Recv() != nil && timeValueMethods[f.Name()] {
+		// value methods of time.Time: functions of the instants involved
+		return true
+	}
 	if nondetPkgs[FuncPkgPath(f)] {
 		return false
 	}
@@ -546,6 +553,7 @@ func (x *Exec) applyContract(fr *Frame, st *State, cc *ssa.CallCommon, callee *s
 	case ctr.Pure, ctr.HasMod && len(ctr.Modifies) == 1 && ctr.Modifies[0] == "nothing":
 	case ctr.HasMod:
 		for _, m := range ctr.Modifies {
+			x.registerMapItem(m, x.pkgOf(callee))
 			if m == "all" {
 				x.frameCall(st, key, "all")
 				x.havocHeap(st, "modifies all")
@@ -634,11 +642,50 @@ func (x *Exec) applyContract(fr *Frame, st *State, cc *ssa.CallCommon, callee *s
 	k(st, resultVal(rs, sig))
 }
 
-var execGhostRe = regexp.MustCompile(`\b(offered|offeredAt|yielded|yieldedAt|yieldedErr|stopped|visited|copyErr|copied|status|header|bodyLen|bodyCopied|ncalls)\(`)
+var execGhostRe = regexp.MustCompile(`\b(offered|offeredAt|yielded|yieldedAt|yieldedErr|stopped|visited|copyErr|copied|status|header|bodyLen|bodyCopied|ncalls|ncallsOf)\(`)
 
 // modifiesMatch: does the modifies item m ("pkg.Type", "pkg.Type.field",
 // "Type.field") cover heap component key k ("F_S_pkg_Type__field")?
+// mapItemKeys: heap components of `map:<type>` modifies items (the contents
+// of every map of that Go type), filled in by registerMapItem.
+var mapItemKeys = map[string][2]string{}
+var mapItemMu sync.Mutex
+
+func (x *Exec) registerMapItem(m string, pkg *types.Package) {
+	if !strings.HasPrefix(m, "map:") {
+		return
+	}
+	mapItemMu.Lock()
+	_, done := mapItemKeys[m]
+	mapItemMu.Unlock()
+	if done {
+		return
+	}
+	env := &Env{x: x, vars: map[string]Val{}, pkg: pkg}
+	T := env.resolveType(strings.TrimPrefix(m, "map:"))
+	if T == nil {
+		x.note("spec-error: unknown map type in modifies item %s", m)
+		return
+	}
+	mt, ok := T.Underlying().(*types.Map)
+	if !ok {
+		x.note("spec-error: %s is not a map type", m)
+		return
+	}
+	x.te.SortOf(mt.Elem())
+	hk, _, vk, _ := x.mapComps(mt)
+	mapItemMu.Lock()
+	mapItemKeys[m] = [2]string{hk, vk}
+	mapItemMu.Unlock()
+}
+
 func modifiesMatch(m, k string) bool {
+	if strings.HasPrefix(m, "map:") {
+		mapItemMu.Lock()
+		ks := mapItemKeys[m]
+		mapItemMu.Unlock()
+		return k == ks[0] || k == ks[1]
+	}
 	parts := strings.Split(m, ".")
 	switch len(parts) {
 	case 3: // pkg.Type.field
